@@ -52,7 +52,9 @@ def wakeups_diff(rng, n, drv, res):
         for _ in range(rng.randrange(1, 14)):
             r = rng.random()
             if r < 0.55:
-                c, t = rng.choice("abcde"), rng.choice((0, 1, 2, 5, 5, 7, -3, 10**9))
+                # small times, and large ones that are nearly - not exactly - equal (seconds / an hour / epoch-sized, 1-40 ns apart)
+                c, t = rng.choice("abcde"), rng.choice((0, 1, 2, 5, 5, 7, -3, 10**9, 10**9 + 1, 60 * 10**9, 60 * 10**9 + 25, 3600 * 10**9 - 40, 3600 * 10**9,
+                                                        1_700_000_000 * 10**9, 1_700_000_000 * 10**9 + 3))
                 ops.append({"o": "add", "c": c, "t": t})
                 out.append(sorted([k, v] for k, v in s.wakeups.items()))
                 s.add_wakeup(c, t)
